@@ -10,7 +10,7 @@ from .world import VERIF
 
 EXPORTS = [("native/exports/segment.rs", "src/query/segment.rs"), ("native/exports/selector.rs", "src/query/selector.rs"),
            ("native/exports/comparison.rs", "src/query/comparison.rs"), ("native/exports/test_function.rs", "src/query/test_function.rs")]
-MODULES = ["mirror.rs", "kjson.rs", "gen.rs", "print.rs", "checks.rs", "main.rs"]
+MODULES = ["mirror.rs", "kjson.rs", "gen.rs", "print.rs", "checks.rs", "helpers_check.rs", "main.rs"]
 
 # property -> [(group, [obligation prefixes that belong to the property])]
 GROUPS = {
@@ -43,6 +43,25 @@ CEX_GROUPS = {
 TARGET = os.path.join(VERIF, "native", "target")
 
 
+STD_SHAPES = ["vf_chain_collect", "vf_zip_all", "vf_enumerate_map_collect", "vf_into_map_collect", "vf_iter_map_collect", "vf_flat_map_collect_raw", "vf_iter_any", "vf_iter_all",
+              "vf_enumerate_filter_map_collect_raw", "vf_filter_map_collect_raw", "vf_iter_fold", "vf_map_reduce_or", "vf_chars_count", "vf_str_lt"]
+
+
+def std_shapes_module() -> str:
+    """the assumed std-shape helpers of contracts/helpers.rs as plain Rust: signature without the contract clauses + the body verbatim
+    (the body IS the std expression the rewrite rule E4 replaced); used by the bounded sanity check of those assumed contracts"""
+    src = open(os.path.join(VERIF, "contracts", "helpers.rs")).read()
+    out = ["// generated from contracts/helpers.rs by vx/native.py::std_shapes_module\npub mod std_shapes {\n"]
+    for name in STD_SHAPES:
+        m = re.search(r"pub fn " + name + r"(<.*?>)?\((.*?)\) -> \((\w+): (.*?)\)\n(.*?)\n\{ (.*?) \}\n", src, flags=re.S)
+        if not m:
+            raise RuntimeError(f"std shape helper {name} not found in contracts/helpers.rs")
+        gen, params, _, ret, _, body = m.groups()
+        out.append(f"    pub fn {name}{gen or ''}({params}) -> {ret} {{ {body} }}\n")
+    out.append("}\n")
+    return "".join(out)
+
+
 def build(run) -> str | None:
     """returns the runner binary, or None (undecided) if the build failed"""
     if getattr(run, "_native_bin", None):
@@ -56,6 +75,7 @@ def build(run) -> str | None:
     with open(os.path.join(crate, "src/query.rs"), "a") as f:
         f.write("\n// ===== appended by /verif (cfg(besok_jsonpath_rust_verif) only): bounded back end =====\n"
                 "#[cfg(besok_jsonpath_rust_verif)]\n#[allow(dead_code, unused_imports, unused_variables)]\npub mod verif_native {\n")
+        f.write(std_shapes_module())
         for m in MODULES:
             f.write(open(os.path.join(VERIF, "native", m)).read())
         f.write("\n}\n")
@@ -147,6 +167,8 @@ def run_for(run):
     spec = GROUPS.get(run.prop, [])
     if not spec:
         return
+    # every property whose proof uses the assumed std-shape contracts also runs their bounded sanity check
+    spec = list(spec) + [("helpers", ["helpers."])]
     res = run_groups(run, [g for g, _ in spec])
     if res is None:
         return
@@ -160,6 +182,10 @@ def run_for(run):
             run.samples.append({"bounded_group": g, "case": s})
         for f in r["failures"]:
             if not any(f["obligation"].startswith(p) for p in prefixes):
+                continue
+            if g == "helpers":
+                # an ASSUMED contract of the trusted base does not hold on this toolchain: the proofs that use it decide nothing
+                run.undecided.append(f"assumed std contract {f['obligation']} fails its bounded sanity check: {json.dumps(f['witnesses'][:1])[:200]}")
                 continue
             _record_failure(run, g, f)
     if run.prop == "C08":
